@@ -81,7 +81,7 @@ Proof.
 Qed.
 Print Assumptions GenTie_source_equals_model.
 
-(* src/add.rs end to end: every inherent method of the file (and Uint::masked), as translated from
+(* src/add.rs end to end: every inherent method of the file (and Uint::masked, Ord::cmp), as translated from
    the current source text, equals the model function that C01's theorems are about, for every
    well-formed Uint<BITS, LIMBS> (LIMBS = nlimbs BITS fits a usize, limb lists of that length) *)
 Definition wfU (bits : Z) (a : list Z) : Prop := length a = nlimbsN bits.
@@ -98,7 +98,9 @@ Theorem GenTie_add_rs : forall bits a b,
   g_saturating_sub bits (nlimbs bits) a b = Val (Add.saturating_sub bits a b) /\
   g_wrapping_add bits (nlimbs bits) a b = Val (Add.wrapping_add bits a b) /\
   g_wrapping_sub bits (nlimbs bits) a b = Val (Add.wrapping_sub bits a b) /\
-  g_wrapping_neg bits (nlimbs bits) a = Val (Add.wrapping_neg bits a).
+  g_wrapping_neg bits (nlimbs bits) a = Val (Add.wrapping_neg bits a) /\
+  g_abs_diff bits (nlimbs bits) a b = Val (Add.abs_diff bits a b) /\
+  g_cmp bits (nlimbs bits) a b = Add.limbs_cmp a b.
 Proof.
   intros bits a b H0 HB Ha Hb. unfold wfU in *.
   exact (conj (g_masked_eq bits a H0 HB Ha)
@@ -112,7 +114,8 @@ Proof.
         (conj (g_saturating_sub_eq bits a b H0 HB Ha Hb)
         (conj (g_wrapping_add_eq bits a b H0 HB Ha Hb)
         (conj (g_wrapping_sub_eq bits a b H0 HB Ha Hb)
-              (g_wrapping_neg_eq bits a H0 HB Ha)))))))))))).
+        (conj (g_wrapping_neg_eq bits a H0 HB Ha)
+        (conj (g_abs_diff_eq bits a b H0 HB Ha Hb) eq_refl))))))))))))).
 Qed.
 Print Assumptions GenTie_add_rs.
 
